@@ -151,15 +151,27 @@ Definition orient_ok (t : tri R) (l : list (tri R)) : Prop :=
 Definition area_frac (t : tri R) (l : list (tri R)) (f : R) : Prop :=
   0 <= f <= 1 /\ vsum_normals l = vscale ROps f (tri_normal t).
 
+(* orientation and area: polynomial identities in the crossing parameters *)
+Lemma tri0_normal a b c s u :
+  tri_normal (a, lerp a b s, lerp c a u) = vscale ROps (s * (1 - u)) (tri_normal (a, b, c)).
+Proof. dvec. tunf. apply V3_ext; ring. Qed.
+Lemma quad0_normal1 a b c u :
+  tri_normal (b, c, lerp c a u) = vscale ROps u (tri_normal (a, b, c)).
+Proof. dvec. tunf. apply V3_ext; ring. Qed.
+Lemma quad0_normal2 a b c s u :
+  tri_normal (b, lerp c a u, lerp a b s) = vscale ROps ((1 - s) * (1 - u)) (tri_normal (a, b, c)).
+Proof. dvec. tunf. apply V3_ext; ring. Qed.
+
+
 Section Core.
   Context (eps : R) (n o : vec3 R).
 
-  Lemma tri0_lerp t : 0 < pd n o (tget t 0) -> pd n o (tget t 1) <= 0 -> pd n o (tget t 2) <= 0 ->
+  Lemma tri0_lerp t : pd n o (tget t 0) <> pd n o (tget t 1) -> pd n o (tget t 2) <> pd n o (tget t 0) ->
     tri0 eps n o t =
     [(tget t 0,
       lerp (tget t 0) (tget t 1) (pd n o (tget t 0) / (pd n o (tget t 0) - pd n o (tget t 1))),
       lerp (tget t 2) (tget t 0) (pd n o (tget t 2) / (pd n o (tget t 2) - pd n o (tget t 0))))].
-  Proof. intros Ha Hb Hc. unfold tri0, pd in *. rewrite !int_point_lerp by lra. reflexivity. Qed.
+  Proof. intros Ha Hb. unfold tri0, pd in *. rewrite !int_point_lerp by assumption. reflexivity. Qed.
 
   Lemma quad0_lerp t : pd n o (tget t 0) < 0 -> 0 < pd n o (tget t 1) -> 0 < pd n o (tget t 2) ->
     quad0 eps n o t =
@@ -177,7 +189,7 @@ Section Core.
   Lemma tri0_sound t : 0 < pd n o (tget t 0) -> pd n o (tget t 1) <= 0 -> pd n o (tget t 2) <= 0 ->
     corners_ok n o t (tri0 eps n o t).
   Proof.
-    intros Ha Hb Hc. rewrite tri0_lerp by assumption. unfold corners_ok.
+    intros Ha Hb Hc. rewrite tri0_lerp by lra. unfold corners_ok.
     apply Forall_cons; [|apply Forall_nil]. apply corners3; split.
     - apply (corner_in_tri t 0). lia.
     - lra.
@@ -201,32 +213,32 @@ Section Core.
       rewrite pd_lerp_zero by lra; lra.
   Qed.
 
-  (* orientation and area: polynomial identities in the crossing parameters *)
-  Lemma tri0_normal a b c s u :
-    tri_normal (a, lerp a b s, lerp c a u) = vscale ROps (s * (1 - u)) (tri_normal (a, b, c)).
-  Proof. dvec. tunf. apply V3_ext; ring. Qed.
-  Lemma quad0_normal1 a b c u :
-    tri_normal (b, c, lerp c a u) = vscale ROps u (tri_normal (a, b, c)).
-  Proof. dvec. tunf. apply V3_ext; ring. Qed.
-  Lemma quad0_normal2 a b c s u :
-    tri_normal (b, lerp c a u, lerp a b s) = vscale ROps ((1 - s) * (1 - u)) (tri_normal (a, b, c)).
-  Proof. dvec. tunf. apply V3_ext; ring. Qed.
+  Lemma tri0_orient t : 0 < pd n o (tget t 0) -> pd n o (tget t 1) < pd n o (tget t 0) ->
+    pd n o (tget t 2) < pd n o (tget t 0) -> orient_ok t (tri0 eps n o t).
+  Proof.
+    intros Ha Hb Hc. rewrite tri0_lerp by lra.
+    assert (Hs : 0 < pd n o (tget t 0) / (pd n o (tget t 0) - pd n o (tget t 1)))
+      by (apply Rdiv_lt_0_compat; lra).
+    assert (Hu : 0 < 1 - pd n o (tget t 2) / (pd n o (tget t 2) - pd n o (tget t 0))).
+    { replace (1 - pd n o (tget t 2) / (pd n o (tget t 2) - pd n o (tget t 0)))
+        with (pd n o (tget t 0) / (pd n o (tget t 0) - pd n o (tget t 2))) by (field; lra).
+      apply Rdiv_lt_0_compat; lra. }
+    set (s := pd n o (tget t 0) / _) in *. set (u := pd n o (tget t 2) / _) in *. clearbody s u.
+    destruct t as [[a b] c]. cbn [tget fst snd] in *.
+    constructor; [|constructor]. exists (s * (1 - u)). split; [nra|]. apply tri0_normal.
+  Qed.
 
-  Lemma tri0_orient_area t : 0 < pd n o (tget t 0) -> pd n o (tget t 1) <= 0 -> pd n o (tget t 2) <= 0 ->
-    orient_ok t (tri0 eps n o t) /\
+  Lemma tri0_area t : 0 < pd n o (tget t 0) -> pd n o (tget t 1) <= 0 -> pd n o (tget t 2) <= 0 ->
     area_frac t (tri0 eps n o t)
       (pd n o (tget t 0) / (pd n o (tget t 0) - pd n o (tget t 1)) *
        (1 - pd n o (tget t 2) / (pd n o (tget t 2) - pd n o (tget t 0)))).
   Proof.
-    intros Ha Hb Hc. rewrite tri0_lerp by assumption.
+    intros Ha Hb Hc. rewrite tri0_lerp by lra.
     pose proof (param_pos_nonpos _ _ Ha Hb) as Hs. pose proof (param_nonpos_pos _ _ Hc Ha) as Hu.
     set (s := pd n o (tget t 0) / _) in *. set (u := pd n o (tget t 2) / _) in *. clearbody s u.
     destruct t as [[a b] c]. cbn [tget fst snd] in *.
-    assert (Hl : 0 <= s * (1 - u) <= 1) by nra.
-    split.
-    - constructor; [|constructor]. exists (s * (1 - u)). split; [lra|]. apply tri0_normal.
-    - split; [exact Hl|]. unfold vsum_normals. cbn [fold_right]. rewrite tri0_normal.
-      destruct (tri_normal (a, b, c)). vunf. apply V3_ext; ring.
+    split; [nra|]. unfold vsum_normals. cbn [fold_right]. rewrite tri0_normal.
+    destruct (tri_normal (a, b, c)). vunf. apply V3_ext; ring.
   Qed.
 
   Lemma quad0_orient_area t : pd n o (tget t 0) < 0 -> 0 < pd n o (tget t 1) -> 0 < pd n o (tget t 2) ->
@@ -249,3 +261,148 @@ Section Core.
       destruct (tri_normal (a, b, c)). vunf. apply V3_ext; ring.
   Qed.
 End Core.
+
+(* ---- the per-face kernel ---------------------------------------------------------------------------------------- *)
+(* H0: a corner that is classified "on" lies exactly on the plane *)
+Definition H0 (tol : R) (n o : vec3 R) (t : tri R) : Prop :=
+  forall k, (k < 3)%nat -> - tol <= pd n o (tget t k) <= tol -> pd n o (tget t k) = 0.
+
+Lemma corners_ok_use n o t l t' x : corners_ok n o t l -> In t' l -> in_tri t' x -> in_tri t x /\ 0 <= pd n o x.
+Proof.
+  intros Hc Hin Hx. unfold corners_ok in Hc. rewrite Forall_forall in Hc. specialize (Hc _ Hin). split.
+  - apply (in_tri_hull t t'); [|exact Hx]. eapply Forall_impl; [|exact Hc]. intros v [H _]; exact H.
+  - apply (pd_hull n o t'); [|exact Hx]. eapply Forall_impl; [|exact Hc]. intros v [_ H]; exact H.
+Qed.
+Lemma corners_ok_rot n o t k l : (k < 3)%nat -> corners_ok n o (rot3 t k) l -> corners_ok n o t l.
+Proof.
+  intros Hk H. unfold corners_ok in *. eapply Forall_impl; [|exact H]. intros t' H'.
+  eapply Forall_impl; [|exact H']. intros v [H1 H2]. split; [apply (in_tri_rot t k v Hk); exact H1|exact H2].
+Qed.
+Lemma orient_ok_rot t k l : (k < 3)%nat -> orient_ok (rot3 t k) l -> orient_ok t l.
+Proof. intros Hk H. unfold orient_ok in *. rewrite tri_normal_rot in H by exact Hk. exact H. Qed.
+Lemma H0_nonpos tol n o t k : 0 <= tol -> H0 tol n o t -> (k < 3)%nat -> pd n o (tget t k) <= tol -> pd n o (tget t k) <= 0.
+Proof.
+  intros Ht H Hk Hd. destruct (Rle_dec (- tol) (pd n o (tget t k))) as [Hl|Hl]; [|lra].
+  rewrite (H k Hk); lra.
+Qed.
+Lemma H0_nonneg tol n o t k : 0 <= tol -> H0 tol n o t -> (k < 3)%nat -> - tol <= pd n o (tget t k) -> 0 <= pd n o (tget t k).
+Proof.
+  intros Ht H Hk Hd. destruct (Rle_dec (pd n o (tget t k)) tol) as [Hl|Hl]; [|lra].
+  rewrite (H k Hk); lra.
+Qed.
+Lemma mod3_lt k : ((k + 1) mod 3 < 3)%nat /\ ((k + 2) mod 3 < 3)%nat.
+Proof. split; apply Nat.mod_upper_bound; lia. Qed.
+
+Theorem slice_face_sound tol eps n o m t t' x : 0 <= tol -> H0 tol n o t ->
+  In t' (slice_face ROps tol eps n o m t) -> in_tri t' x ->
+  in_tri t x /\ (m = true -> 0 <= pd n o x).
+Proof.
+  intros Ht HH Hin Hx. unfold slice_face, slice_face_signs in Hin.
+  pose proof (face_case_facts tol n o t m Ht) as Hf.
+  destruct (face_case (tri_signs ROps tol n o t) m) as [| |k|k].
+  - destruct Hin as [<-|[]]. split; [exact Hx|]. intros Hm. destruct Hf as [Hf|Hf]; [congruence|].
+    apply (pd_hull n o t x); [|exact Hx]. destruct t as [[a b] c]. apply corners3.
+    + apply (H0_nonneg tol n o (a, b, c) 0 Ht HH); [lia|apply Hf; lia].
+    + apply (H0_nonneg tol n o (a, b, c) 1 Ht HH); [lia|apply Hf; lia].
+    + apply (H0_nonneg tol n o (a, b, c) 2 Ht HH); [lia|apply Hf; lia].
+  - destruct Hin.
+  - destruct Hf as (Hm & Hk & Ha & Hb & Hc). rewrite quad_tris_rot in Hin by exact Hk.
+    assert (Hok : corners_ok n o t (quad0 eps n o (rot3 t k))).
+    { apply (corners_ok_rot n o t k _ Hk). apply quad0_sound; unfold rot3; cbn [tget fst snd]; lra. }
+    destruct (corners_ok_use _ _ _ _ _ _ Hok Hin Hx) as [H1 H2]. split; [exact H1|intros _; exact H2].
+  - destruct Hf as (Hm & Hk & Ha & Hb & Hc). rewrite cut_tris_rot in Hin by exact Hk.
+    destruct (mod3_lt k) as [Hk1 Hk2].
+    assert (Hok : corners_ok n o t (tri0 eps n o (rot3 t k))).
+    { apply (corners_ok_rot n o t k _ Hk). apply tri0_sound; unfold rot3; cbn [tget fst snd].
+      - lra.
+      - apply (H0_nonpos tol n o t _ Ht HH Hk1 Hb).
+      - apply (H0_nonpos tol n o t _ Ht HH Hk2 Hc). }
+    destruct (corners_ok_use _ _ _ _ _ _ Hok Hin Hx) as [H1 H2]. split; [exact H1|intros _; exact H2].
+Qed.
+
+(* orientation needs no H0: every output triangle's normal is a non-negative multiple of the input face's *)
+Theorem slice_face_orient tol eps n o m t t' : 0 <= tol ->
+  In t' (slice_face ROps tol eps n o m t) ->
+  exists lam, 0 <= lam /\ tri_normal t' = vscale ROps lam (tri_normal t).
+Proof.
+  intros Ht Hin. unfold slice_face, slice_face_signs in Hin.
+  pose proof (face_case_facts tol n o t m Ht) as Hf.
+  destruct (face_case (tri_signs ROps tol n o t) m) as [| |k|k].
+  - destruct Hin as [<-|[]]. exists 1. split; [lra|]. destruct (tri_normal t). vunf. apply V3_ext; ring.
+  - destruct Hin.
+  - destruct Hf as (Hm & Hk & Ha & Hb & Hc). rewrite quad_tris_rot in Hin by exact Hk.
+    assert (Hok : orient_ok t (quad0 eps n o (rot3 t k))).
+    { apply (orient_ok_rot t k _ Hk). apply quad0_orient_area; unfold rot3; cbn [tget fst snd]; lra. }
+    unfold orient_ok in Hok. rewrite Forall_forall in Hok. exact (Hok _ Hin).
+  - destruct Hf as (Hm & Hk & Ha & Hb & Hc). rewrite cut_tris_rot in Hin by exact Hk.
+    assert (Hok : orient_ok t (tri0 eps n o (rot3 t k))).
+    { apply (orient_ok_rot t k _ Hk). apply tri0_orient; unfold rot3; cbn [tget fst snd]; lra. }
+    unfold orient_ok in Hok. rewrite Forall_forall in Hok. exact (Hok _ Hin).
+Qed.
+
+(* ---- the case rules of the property text, pattern by pattern ------------------------------------------------ *)
+Definition all_le0 (s : sgn3) : bool := ((sget s 0 <=? 0) && (sget s 1 <=? 0) && (sget s 2 <=? 0))%Z.
+Definition all_ge0 (s : sgn3) : bool := ((0 <=? sget s 0) && (0 <=? sget s 1) && (0 <=? sget s 2))%Z.
+Definition count_front (s : sgn3) : nat :=
+  ((if (sget s 0 =? -1)%Z then 1 else 0) + (if (sget s 1 =? -1)%Z then 1 else 0) + (if (sget s 2 =? -1)%Z then 1 else 0))%nat.
+(* the text: not selected, or wholly on / in front -> kept whole; otherwise no corner in front -> dropped;
+   otherwise cut: two corners in front -> quad around the corner behind, one -> triangle at the corner in front *)
+Definition expected_case (s : sgn3) (m : bool) : fcase :=
+  if negb m then Keep
+  else if all_le0 s then Keep
+  else if all_ge0 s then Drop
+  else if (count_front s =? 2)%nat then CQuad (col_of 1 s) else CTri (col_of (-1) s).
+Definition fcase_eqb (a b : fcase) : bool :=
+  match a, b with
+  | Keep, Keep | Drop, Drop => true
+  | CQuad i, CQuad j | CTri i, CTri j => Nat.eqb i j
+  | _, _ => false
+  end.
+Lemma fcase_eqb_eq a b : fcase_eqb a b = true -> a = b.
+Proof. destruct a, b; cbn; try discriminate; try reflexivity; intros H; apply Nat.eqb_eq in H; subst; reflexivity. Qed.
+
+Lemma face_case_expected :
+  forallb (fun s => forallb (fun m => fcase_eqb (face_case s m) (expected_case s m)) [true; false]) all_patterns = true.
+Proof. vm_compute. reflexivity. Qed.
+
+Lemma face_case_is_expected tol n o t m :
+  face_case (tri_signs ROps tol n o t) m = expected_case (tri_signs ROps tol n o t) m.
+Proof.
+  pose proof face_case_expected as H. rewrite forallb_forall in H. specialize (H _ (tri_signs_pattern tol n o t)).
+  rewrite forallb_forall in H. apply fcase_eqb_eq, H. destruct m; cbn; auto.
+Qed.
+
+Lemma vsign_le0_of tol d : - tol <= d -> (vsign ROps tol d <= 0)%Z.
+Proof. intros H. unfold vsign; rops. destruct (Rltb_spec tol d); [lia|]. destruct (Rltb_spec d (- tol)); [lra|lia]. Qed.
+Lemma vsign_ge0_of tol d : d <= tol -> (0 <= vsign ROps tol d)%Z.
+Proof. intros H. unfold vsign; rops. destruct (Rltb_spec tol d); [lra|]. destruct (Rltb_spec d (- tol)); lia. Qed.
+
+Lemma slice_face_unselected tol eps n o t : slice_face ROps tol eps n o false t = [t].
+Proof. unfold slice_face, slice_face_signs. rewrite face_case_is_expected. reflexivity. Qed.
+
+Lemma slice_face_keep tol eps n o m t :
+  (forall k, (k < 3)%nat -> - tol <= pd n o (tget t k)) -> slice_face ROps tol eps n o m t = [t].
+Proof.
+  intros H. unfold slice_face, slice_face_signs. rewrite face_case_is_expected. unfold expected_case.
+  destruct m; [|reflexivity]. cbn [negb].
+  assert (E : all_le0 (tri_signs ROps tol n o t) = true).
+  { unfold all_le0. rewrite !sget_tri_signs by lia. rewrite !andb_true_iff, !Z.leb_le.
+    repeat split; apply vsign_le0_of; apply H; lia. }
+  rewrite E. reflexivity.
+Qed.
+
+Lemma slice_face_drop tol eps n o t : 0 <= tol ->
+  (forall k, (k < 3)%nat -> pd n o (tget t k) <= tol) -> (exists k, (k < 3)%nat /\ pd n o (tget t k) < - tol) ->
+  slice_face ROps tol eps n o true t = [].
+Proof.
+  intros Ht H (k & Hk & Hb). unfold slice_face, slice_face_signs. rewrite face_case_is_expected. unfold expected_case.
+  cbn [negb].
+  assert (E1 : all_le0 (tri_signs ROps tol n o t) = false).
+  { apply not_true_is_false. unfold all_le0. rewrite !andb_true_iff, !Z.leb_le, !sget_tri_signs by lia.
+    intros [[H0' H1'] H2']. apply (vsign_behind tol _ Ht) in Hb. unfold pd in Hb.
+    destruct k as [|[|[|k]]]; try lia; rewrite Hb in *; lia. }
+  assert (E2 : all_ge0 (tri_signs ROps tol n o t) = true).
+  { unfold all_ge0. rewrite !sget_tri_signs by lia. rewrite !andb_true_iff, !Z.leb_le.
+    repeat split; apply vsign_ge0_of; apply H; lia. }
+  rewrite E1, E2. reflexivity.
+Qed.
